@@ -41,7 +41,7 @@ from engine import Op, set_mode
 gen_durregex.register()     # translate.main() regenerates Gen/DurRegex.lean on every check run
 
 PROP = "C10"
-LEAN_MODULES = ["IsoDT.Props.C10"]
+LEAN_MODULES = ["IsoDT.Props.C10", "IsoDT.Props.C10b"]
 REQUIRED_THEOREMS = ["IsoDT.Props.C10." + n for n in (
     "C10_roundtrip", "C10_designators", "C10_designators_weeks", "C10_alt", "C10_alt_canonical",
     "C10_str_negative", "C10_roundtrip_counter_beyond_binary64", "C10_mixed_sign_unparseable_example")]
